@@ -92,6 +92,16 @@ fn unary_helpers(ctx: &mut Ctx, a: &Value) {
 }
 
 /// Build `depth` nested applications of operator k with the recursion in position p.
+fn chain_text_filled(k: &str, p: usize, n: usize, depth: usize, leaf: &str, fill: &str) -> String {
+    let mut s = leaf.to_string();
+    for _ in 0..depth {
+        let mut args: Vec<String> = (0..n).map(|_| fill.to_string()).collect();
+        args[p] = s;
+        s = format!("{{\"{}\":[{}]}}", k, args.join(","));
+    }
+    s
+}
+
 fn chain_text(k: &str, p: usize, n: usize, depth: usize, leaf: &str, bracketless: bool) -> String {
     let mut s = leaf.to_string();
     for _ in 0..depth {
@@ -236,6 +246,15 @@ pub fn run(ctx: &mut Ctx) {
                             }
                             Err(_) => {
                                 ctx.note_outcome("chain:beyond-text-depth", "skipped".into());
+                            }
+                        }
+                        // control flow with falsy / truthy fill: every branch of every level is walked
+                        if ["if", "?:", "and", "or"].contains(&k) {
+                            for (fill, lf) in [("0", "0"), ("1", "1"), ("0", "1"), ("\"\"", "[]")] {
+                                let t = chain_text_filled(k, p, n, depth, lf, fill);
+                                if let Ok(rule) = serde_json::from_str::<Value>(&t) {
+                                    ctx.check_total("chain:control-flow-fill", &rule, &datas[1]);
+                                }
                             }
                         }
                         if n == 1 && p == 0 {
